@@ -529,8 +529,34 @@ func (fr *frame) exec(in ssa.Instruction, st *State, reach string) {
 		}
 		fc.unsupported("go statement in %s (goroutines are outside the proof subset)", fr.fn.Name())
 	case *ssa.Select:
-		fc.unsupported("select statement in %s", fr.fn.Name())
-		fr.vals[i] = nil
+		// select: one of the cases is taken, which one is not determined (for a non-blocking select
+		// also none: index -1). A send case appends to the channel's log when taken; a receive case
+		// yields an unconstrained value (the channels selected on here are cancellation channels).
+		n := len(i.States)
+		idx := fc.fresh("select_idx", SInt)
+		lo := "0"
+		if !i.Blocking {
+			lo = "(- 1)"
+		}
+		fc.fact(fmt.Sprintf("(and (<= %s %s) (< %s %d))", lo, idx.S, idx.S, n))
+		out := []Val{idx, fc.fresh("select_recvok", SBool)}
+		for k, s := range i.States {
+			taken := eq(idx.S, strconv.Itoa(k))
+			if s.Dir == types.SendOnly {
+				pre := st.clone()
+				fr.chanSend(st, fr.term(s.Chan), fr.term(s.Send), and(reach, taken), i.Pos())
+				fr.condMerge(st, pre, taken)
+			} else {
+				ct := s.Chan.Type().Underlying().(*types.Chan)
+				es := fc.e.sortOf(ct.Elem())
+				v := fc.fresh("select_recv", es)
+				if es == SInt && isRefType(ct.Elem()) {
+					fc.assumeAllocated(st, v)
+				}
+				out = append(out, v)
+			}
+		}
+		fr.vals[i] = &Tuple{out}
 	default:
 		fc.unsupported("instruction %T in %s", in, fr.fn.Name())
 	}
